@@ -232,7 +232,20 @@ def run_one(job):
     _SENT.add(h)
     lines = {(os.path.basename(e[2][0]), e[2][1]) for e in r["log"] if e[1] == "line"} - _LINES
     _LINES.update(lines)
-    return {"h": h, "term": term if first else None, "steps": r["steps"], "deadlock": r["deadlock"],
+    diff = []
+    if not (eager == lazy and out_e == out_l):
+        # the first observations that differ, decoded (what = thread outcome i / class description i / later use)
+        back = {v: k for k, v in intern.d.items()}
+        dec = lambda x: back.get(x, x)  # noqa: E731
+        rows = [(f"outcome of thread {i}", a, b) for i, (a, b) in enumerate(zip(out_e, out_l))]
+        rows += [("later sequential use" if i == len(eager) - 1 else f"description of class C{i}", a, b)
+                 for i, (a, b) in enumerate(zip(eager, lazy))]
+        for what, a, b in rows:
+            if a != b:
+                j = next((j for j, (x, y) in enumerate(zip(a, b)) if x != y), min(len(a), len(b)))
+                diff.append({"what": what, "position": j, "eager": [dec(x) for x in a[j:j + 2]],
+                             "lazy": [dec(x) for x in b[j:j + 2]]})
+    return {"h": h, "diff": diff[:3], "term": term if first else None, "steps": r["steps"], "deadlock": r["deadlock"],
             "stuck": r["stuck"], "overrun": r["overrun"], "same": (eager == lazy and out_e == out_l),
             "eager_ok": all(o[0] == 1 for o in out_e), "lines": sorted(lines), "nevents": len(events),
             "outs": [o[0] for o in out_l],
@@ -533,6 +546,7 @@ def main2(tier, replay, pool):
         res, code, logs = replay_case(r, pool)
         print("uses:", r["uses"], "policy:", r["policy"])
         print("replay:", f"still failing code={code} ({MEANING.get(code)})" if code else "passes now", logs)
+        print("first differences (eager / lazy):", res.get("diff"))
         print("lazy == eager:", res["same"], "thread outcomes ok:", res["outs"], "exceptions:", res.get("errors"),
               "steps:", res["steps"], "deadlock:", res["deadlock"])
         return 1 if code else 0
@@ -666,10 +680,10 @@ def main2(tier, replay, pool):
             d2, u2, p2, res = d, u, p, results[i]
         import c19_impl as I
         what = (f"lazy bootstrapping {'differs from the eager sequential result' if code == 2 else 'differs from the model'}: "
-                f"uses={u2} policy={p2} outcomes_ok={res['outs']} exceptions={res.get('errors')} "
+                f"uses={u2} policy={p2} outcomes_ok={res['outs']} exceptions={res.get('errors')} first_differences={res.get('diff')} "
                 f"deadlock={res['deadlock']} classes={d2['classes']} sub={d2.get('sub')} names={d2.get('names')}")
         chk.violation(what, {"classes": d2, "uses": u2, "policy": p2, "code": code, "meaning": MEANING.get(code),
-                             "exceptions_seen_by_threads": res.get("errors"),
+                             "exceptions_seen_by_threads": res.get("errors"), "first_differences": res.get("diff"),
                              "source": I.render(d2, False), "replay": "bin/check C19 --replay <this file>"},
                       sig={"code": code, "generator": meta[i][0]}, no_input=(code != 2))
     for lg in logs:
